@@ -66,6 +66,8 @@ def corpus():
     cs = [mk_knn(es, ns, d, 1, "mean", list(es) + [1.0], list(ns) + [1.0], [5], "corpus-k1-at-data"),
           mk_knn(es, ns, d, 4, "median", [1.0, 2.0], [1.0, -3.0], [2], "corpus-k=n"),
           mk_knn([2.0], [3.0], [7.0], 1, "max", [0.0, 5.0], [0.0, 5.0], [2], "corpus-single-point"),
+          mk_knn(es, ns, [1.0, 2.0, 4.0, 8.0][:len(es)], 2, "mean", [1.0, 2.0], [1.0, -3.0], [2], "corpus-intdata-k2-mean"),
+          mk_knn(es, ns, [1.0, 2.0, 4.0, 9.0][:len(es)], 4, "median", [1.0, 2.0], [1.0, -3.0], [2], "corpus-intdata-median"),
           mk_md(es, ns, 1, [4], "corpus-md"), mk_md(es, ns, 3, [2, 2], "corpus-md-2d"),
           mk_mask(es, ns, 5.0, [3.0, 0.0, 6.0, 20.0], [8.0, -5.0, 8.0, 20.0], [4], None, None, "corpus-boundary-3-4-5"),
           mk_mask(es, ns, 5.0, None, None, None, None, ([0.0, 3.0, 6.5], [-5.0, 0.0]), "corpus-grid"),
@@ -87,6 +89,8 @@ def generate(rng, tier):
         shape2d = [nq] if (nq % 2 or rng.random() < 0.6) else [2, nq // 2]
         if u < 0.45:
             data = [rng.randint(-64, 64) / 4.0 for _ in es]
+            if rng.random() < 0.25:     # integer-valued data are handed over with an integer dtype (see impl)
+                data = [float(rng.randint(-64, 64)) for _ in es]
             k = rng.choice([1, 1, 2, 3, npts, rng.randint(1, npts)])
             k = min(k, npts)
             cs.append(mk_knn(es, ns, data, k, rng.choice(list(REDS)), qe, qn, shape2d, "knn"))
@@ -114,7 +118,10 @@ def impl(case):
     def run():
         if fn == "knn":
             es, ns, data, k, red, qe, qn, shape2d = a
-            g = vd.KNeighbors(k=k, reduction=REDS[red]).fit((np.array(es), np.array(ns)), np.array(data))
+            darr = np.array(data)
+            if all(float(v).is_integer() for v in data):
+                darr = darr.astype("int64" if len(data) % 2 else "int16")      # elevations / counts: the reduction must not be truncated
+            g = vd.KNeighbors(k=k, reduction=REDS[red]).fit((np.array(es), np.array(ns)), darr)
             r = g.predict((C.mkarr(qe, shape2d, case["op"]), C.mkarr(qn, shape2d, case["op"])))
             if list(r.shape) != list(shape2d):
                 raise RuntimeError("wrong output shape")
